@@ -652,3 +652,19 @@ Fixpoint jvalue_eqb (a b : jvalue) : bool :=
          end) l m
   | _, _ => false
   end.
+
+(* ==== pause -> resume =========================================================== *)
+(* LocalBackend._resume_trial: std.out of the paused run is kept and the resumed run
+   appends to it; the reports already in the file are counted as seen:
+     self._last_metric_seen_index[trial_id] = len(self._retrieve_metrics(trial_id))
+   and a later poll returns  metrics[seen:]. *)
+Definition seen_at_resume (text_at_resume : text) : nat := List.length (poll_model text_at_resume).
+Definition poll_after_resume (text_at_resume text_now : text) : list text :=
+  skipn (seen_at_resume text_at_resume) (poll_model text_now).
+
+(* the tempting shortcut: count the occurrences of the tag prefix in the text *)
+Fixpoint count_pre (t : text) : nat :=
+  match t with
+  | [] => O
+  | _ :: r => ((if starts_with PRE t then 1 else 0) + count_pre r)%nat
+  end.
